@@ -29,7 +29,8 @@
 (*   - the rules of assignments, conditions, calls, operators, variables    *)
 (*     and indexing listed at the judgements below                          *)
 (* An entity whose declaration is faulty has the unknown type, which        *)
-(* suppresses every dependent check.                                        *)
+(* suppresses the checks that depend on it; an operator expression has the  *)
+(* type its operator yields whatever its operands are.                      *)
 EXTENDS Naturals, Sequences, FiniteSets, TLC
 
 INTT == <<"int">>
@@ -122,16 +123,19 @@ Expr(s, i, loc, glob) ==
          R(IF IsArrT(b.ty) THEN b.ty[4] ELSE UNKT, b.errs \cup x.errs \cup eb \cup ex)
     [] k = "Unary" ->
          LET a == Expr(s, ks[1], loc, glob) IN
-         R(IF a.ty = UNKT THEN UNKT ELSE INTT, a.errs \cup (IF a.ty \notin {UNKT, INTT} THEN {"ArithmeticOperatorNonInteger"} ELSE {}))
+         R(INTT, a.errs \cup (IF a.ty \notin {UNKT, INTT} THEN {"ArithmeticOperatorNonInteger"} ELSE {}))
     [] k = "Binary" ->
          LET a == Expr(s, ks[1], loc, glob)
              b == Expr(s, ks[2], loc, glob)
              cmp == s[i].s \in {"<", "<=", ">", ">=", "=", "#"}
              own == IF a.ty = UNKT \/ b.ty = UNKT THEN {}
-                    ELSE IF a.ty # b.ty THEN {"OperatorDifferentTypes"}
-                    ELSE IF a.ty # INTT THEN {IF cmp THEN "ComparisonNonInteger" ELSE "ArithmeticOperatorNonInteger"}
-                    ELSE {} IN
-         R(IF a.ty = UNKT \/ b.ty = UNKT \/ own # {} THEN UNKT ELSE IF cmp THEN BOOLT ELSE INTT, a.errs \cup b.errs \cup own)
+                    ELSE IF a.ty = INTT /\ b.ty = INTT THEN {}
+                    ELSE IF a.ty = INTT \/ b.ty = INTT THEN {"OperatorDifferentTypes"}
+                    ELSE {IF cmp THEN "ComparisonNonInteger" ELSE "ArithmeticOperatorNonInteger"} IN
+         \* (two different non-integer operand types violate both rules; as the implementation, the checker names the
+         \*  integer rule then - programs with more than one violation are outside the listed property)
+         \* the operator decides the result type, also when an operand is faulty (only the operator's own check is suppressed)
+         R(IF cmp THEN BOOLT ELSE INTT, a.errs \cup b.errs \cup own)
     [] OTHER -> R(UNKT, {"?unknown expression node " \o k})
 
 IsVariableNode(s, i) == s[i].k \in {"NamedVar", "ArrayAccess"}
